@@ -37,7 +37,7 @@ def make_driver_for(cfg: str):
     kw = None if cfg == 'Conn_badlimit.cfg' else NOLIMIT
 
     def make(env: str, rng):
-        return cc.ImapDriver(env, rng, rich=True, config_kw=kw)
+        return cc.ImapDriver(env, rng, rich=True, config_kw=kw, users={'user1': 'pass1'})
     return make
 
 
@@ -48,7 +48,7 @@ def main(tier: str) -> int:
     run.cov['rule'] = (
         'executions = input sequences run on a fresh in-process pymap server (dict '
         'backend, a store shaped like the demo data of pymap) and tracked through the TLC state graph of Conn.tla: '
-        'transition-tour paths, every sequence of length <= 2, TLC -simulate behaviours, '
+        'transition-tour paths, sequences of length <= 2 (thorough: all; quick: a seeded sample), TLC -simulate behaviours, '
         'seeded walks; non-trivial = at least one input changed the connection state '
         '(authenticated / selected / closed / TLS); distinct = distinct input sequences')
     run.assumptions += [
@@ -89,10 +89,10 @@ def main(tier: str) -> int:
     nseq = 0
     for n, env in zip(model.inits, envs):
         seqs = list(cc.label_sequences(model, n, 2))
-        if quick and env != 'plain':
-            # the TLS-required configuration differs before authentication only:
-            # quick tier samples it
-            seqs = rng.sample(seqs, min(len(seqs), 600))
+        if quick:
+            # quick tier: a seeded sample (the transition tour above already
+            # applies every input in every state); thorough: all of them
+            seqs = rng.sample(seqs, min(len(seqs), 3500 if env == 'plain' else 400))
         for labels in seqs:
             cc.run_labels(ex, env, labels, 'seq2', probe_every=2)
             nseq += 1
@@ -160,7 +160,7 @@ def main(tier: str) -> int:
         'every (state, input) pair of the Conn_c05 graph (2 initial configurations x '
         'not-authenticated / authenticated / selected x {INBOX rw, INBOX ro, read-only '
         'mailbox, scratch mailbox rw/ro} x data markers) executed with state '
-        'identification after each input; every input sequence of length <= 2')
+        'identification after each input; thorough tier: every input sequence of length <= 2 from every initial state')
     return run.finish()
 
 
